@@ -262,7 +262,7 @@ pub fn sender_blocking<M: ZooMsg + ?Sized>(sh: Shared, plan: Arc<Plan>) {
                 return;
             }
             if failed {
-                let k = w.dec.weighted(St::Policy, &[2, 2, 2]);
+                let k = w.dec.weighted(St::Policy, &[1, 3, 3]);
                 let pol = [AfterSendErr::Stop, AfterSendErr::ResendSame, AfterSendErr::SendNext][k];
                 drop(w);
                 resends += 1;
@@ -293,14 +293,16 @@ pub fn sender_blocking<M: ZooMsg + ?Sized>(sh: Shared, plan: Arc<Plan>) {
 }
 
 /// Inspect a live guard: size, view length, deep read, re-validation.  All under catch_unwind.
-fn inspect<M: ZooMsg + ?Sized>(m: &M) -> Result<(usize, usize, Val, bool), Caught> {
+fn inspect<M: ZooMsg + ?Sized>(m: &M) -> Result<(usize, usize, Val, bool, Option<String>), Caught> {
     guarded(|| {
         let size = m.size();
         let view = m.as_bytes();
         let view_len = view.len();
+        let _ = crate::zoo::take_invalid();
         let val = m.read();
+        let invalid = crate::zoo::take_invalid().map(|s| s.to_string());
         let ok = M::validate(view).is_ok();
-        (size, view_len, val, ok)
+        (size, view_len, val, ok, invalid)
     })
 }
 
@@ -330,7 +332,7 @@ pub fn receiver_blocking<M: ZooMsg + ?Sized>(sh: Shared, plan: Arc<Plan>) {
                     let occupied = guard.as_bytes().len();
                     let _ = occupied;
                     match inspect::<M>(&*guard) {
-                        Ok((size, view_len, val, revalidates)) => {
+                        Ok((size, view_len, val, revalidates, invalid)) => {
                             let retain = {
                                 let mut w = lock(&sh);
                                 let p = plan.retain_p;
@@ -344,14 +346,14 @@ pub fn receiver_blocking<M: ZooMsg + ?Sized>(sh: Shared, plan: Arc<Plan>) {
                             if retain {
                                 guard.retain();
                                 lock(&sh).probe(P::retained_guard);
-                                outcome = RecvOutcome::Msg { val, size, view_len, occupied: occ, revalidates, retained: true, drop_panic: None };
+                                outcome = RecvOutcome::Msg { val, size, view_len, occupied: occ, revalidates, retained: true, drop_panic: None, invalid };
                             } else {
                                 let dp = guarded(move || drop(guard)).err();
                                 let drop_panic = dp.map(|c| c.describe());
                                 if drop_panic.is_some() {
                                     stop = true;
                                 }
-                                outcome = RecvOutcome::Msg { val, size, view_len, occupied: occ, revalidates, retained: false, drop_panic };
+                                outcome = RecvOutcome::Msg { val, size, view_len, occupied: occ, revalidates, retained: false, drop_panic, invalid };
                             }
                         }
                         Err(c) => {
@@ -461,7 +463,7 @@ pub async fn sender_async<M: ZooMsg + ?Sized>(sh: Shared, plan: Arc<Plan>) {
         let mut w = lock(&sh);
         w.end_send(result, None, win);
         if failed {
-            let k = w.dec.weighted(St::Policy, &[2, 2, 2]);
+            let k = w.dec.weighted(St::Policy, &[1, 3, 3]);
             let pol = [AfterSendErr::Stop, AfterSendErr::ResendSame, AfterSendErr::SendNext][k];
             drop(w);
             resends += 1;
@@ -505,7 +507,7 @@ pub async fn receiver_async<M: ZooMsg + ?Sized>(sh: Shared, plan: Arc<Plan>) {
         lock(&sh).recv_returned();
         match res {
             Ok(guard) => match inspect::<M>(&*guard) {
-                Ok((size, view_len, val, revalidates)) => {
+                Ok((size, view_len, val, revalidates, invalid)) => {
                     let retain = {
                         let mut w = lock(&sh);
                         let p = plan.retain_p;
@@ -518,14 +520,14 @@ pub async fn receiver_async<M: ZooMsg + ?Sized>(sh: Shared, plan: Arc<Plan>) {
                     if retain {
                         guard.retain();
                         lock(&sh).probe(P::retained_guard);
-                        outcome = RecvOutcome::Msg { val, size, view_len, occupied: occ, revalidates, retained: true, drop_panic: None };
+                        outcome = RecvOutcome::Msg { val, size, view_len, occupied: occ, revalidates, retained: true, drop_panic: None, invalid };
                     } else {
                         let dp = guarded(move || drop(guard)).err();
                         let drop_panic = dp.map(|c| c.describe());
                         if drop_panic.is_some() {
                             stop = true;
                         }
-                        outcome = RecvOutcome::Msg { val, size, view_len, occupied: occ, revalidates, retained: false, drop_panic };
+                        outcome = RecvOutcome::Msg { val, size, view_len, occupied: occ, revalidates, retained: false, drop_panic, invalid };
                     }
                 }
                 Err(c) => {
